@@ -11,6 +11,7 @@ git -C /repo worktree remove --force $wt >/dev/null 2>&1
 git -C /repo worktree add -q --detach $wt HEAD || { echo "{\"name\":\"$name\",\"error\":\"worktree\"}"; exit 2; }
 cd $wt || exit 2
 pkgclause=$(grep -h '^package' $src/*_test.go | head -1 | awk '{print $2}')
+pkgclause=${pkgclause%_test}   # external test packages live in the same directory
 case "$pkgclause" in
   validator) dir=internal/validator ;;
   pkg) dir=pkg ;;
@@ -18,6 +19,15 @@ case "$pkgclause" in
   main) dir=cmd ;;
   generator) dir=internal/generator ;;
   profile) dir=internal/parser/profile ;;
+  parser) dir=internal/parser ;;
+  helpers) dir=cmd/commands/helpers ;;
+  commands) dir=cmd/commands ;;
+  yaml) dir=internal/parser/yaml ;;
+  misc) dir=internal/misc ;;
+  contexts) dir=internal/validator/contexts ;;
+  milestones) dir=pkg/milestones ;;
+  events) dir=pkg/events ;;
+  config) dir=pkg/config ;;
   *) dir=internal/validator ;;
 esac
 demo=$(ls $src/*_test.go | head -1)
